@@ -9,6 +9,16 @@ idx   = {"k": "row", "r": z} | {"k": "rows", "sl": [s,e,st]} | {"k": "rowlist", 
       | {"k": "rowsl", "r": z, "sl": [..]} | {"k": "mask", "m": [[bool]]} | {"k": "attrs"}
 Result = {"ra": rows} (a RaggedArray: list of rows) | {"flat": [..]} | {"err": name}
          attrs: {"lengths","starts","shape","size","len","iter","flatten","dtype_ok"}.
+Optional fields (round 3s streams; absent = the defaults of the original streams):
+  "vals": None    the flat data is 0..n-1 (large arrays);
+  "lay":  memory layout of the flat data handed to the constructor: C | F | T (transposed view of a features x frames
+          array) | rowstr | colstr (strided views) | neg | negcol (negative strides); 1-D data: C | str | neg;
+  "copy": False   RaggedArray(..., copy=False) for the flat constructors;
+  "ldt":  dtype of the lengths ndarray (ctor flat_np): int8 .. uint64 -- the running total of the lengths may exceed
+          the range of that dtype although every length fits;
+  "ixdt": dtype of ndarray index arrays; "ixview": True = the index arrays are columns of one 2-D table (views);
+  "again": {"lens": [..]}  the SAME index objects are used for a second read, on a second array with these lengths.
+Result may carry "argmod" (an index object passed to __getitem__ was changed by the read) and "again" (second read).
 Elements of width w > 0 are the vectors [v, v+1000, .., v+1000(w-1)]; they are canonicalised back to v (after
 checking the pattern), so the model works over Z throughout.
 """
@@ -37,6 +47,15 @@ RULE = ("thorough: exhaustive small scope -- all 84 length vectors with <= 3 row
         "every read is evaluated twice in Coq: on the hand-written model (get_c) and on the read assembled from "
         "the definitions regenerated from the current ra.py (get_g: gen_conv2d, gen_starts, gen_slice_to_list, "
         "gen_conv1d, gen_iis_from_*); attrs cases also compare gen_starts with the real starts. "
+        "Round-3s streams (quick 500/136/300, thorough 5000/1040+/3000 cases), every read form of the property on each: "
+        "(layout) flat data and rows that are not C-contiguous -- column-major, transposed view of a features x frames "
+        "array, row- and column-strided views, negative strides; elements of width 2 and 3 and scalars; equal lengths "
+        "(rectangular branch) as often as unequal ones, lengths as list and as ndarray, copy=True and copy=False; "
+        "(narrow lengths) lengths as int8 / uint8 / int16 / uint16 ndarrays whose running total exceeds the dtype's "
+        "range (16-bit cases have tens of thousands of elements and are judged by the oracle only, tag "
+        "oracle-only-large), plus every integer dtype without a wrap; (index arguments) index objects that are ndarrays "
+        "of int8..int64 with negative entries, also two columns of one table (views): the objects must be unchanged "
+        "after the read and are used again for a second read on an array with other row lengths. "
         "non-trivial := at least 2 rows, and the read either succeeds with a non-empty result that is not the "
         "whole array or is an error case")
 TRUSTED = ["translator/tr_ragged.py + translator/py2coq.py: _slice_to_list whole (dynamic int-or-None fragment); the scalar "
@@ -50,6 +69,11 @@ TRUSTED = ["translator/tr_ragged.py + translator/py2coq.py: _slice_to_list whole
            "harness canonicalisation: a RaggedArray result is read back through its rows (_array), its flat data "
            "and its lengths, and these three must agree"]
 ASSUMPTIONS = ["row lengths are positive in the arrays being read (property wording); a read may return empty rows",
+               "element types: all data are platform integers; of the dtype of what a read returns the KIND is compared "
+               "(numpy dtype.kind, here 'i'): for an ndarray result the kind of that array; for a RaggedArray result the "
+               "kinds of every stored row (_array), every iterated row, every row read back by result[i], and of the flat "
+               "data; for attrs the kinds of the iterated rows, of a[i] for every i and of flatten(). Arrays without "
+               "elements are skipped (their dtype is not determined by the data). Itemsize / byte order are not compared",
                "index lists are non-empty integer lists; the two lists of a paired index have equal length"]
 EXHAUSTIVE = {"thorough": True, "quick": False}
 SHARD = 400
@@ -78,19 +102,27 @@ def _rand_list(rng, n, lo, hi, minlen=1, maxlen=3):
     return [rng.randint(lo, hi) for _ in range(rng.randint(minlen, maxlen))]
 
 
-def _mk(lens, ctor, w, idx, vals=None):
+def _mk(lens, ctor, w, idx, vals=None, **extra):
     n = sum(lens)
-    if vals is None:
+    if vals is None and n <= 600:
         vals = list(range(n))
-    return {"lens": list(lens), "vals": vals, "ctor": ctor, "w": w, "idx": idx}
+    c = {"lens": list(lens), "vals": vals, "ctor": ctor, "w": w, "idx": idx}
+    for k, v in extra.items():
+        if v is not None:
+            c[k] = v
+    return c
 
 
-def _sampled_idx(rng, lens):
+def _vals(c):
+    return list(range(sum(c["lens"]))) if c["vals"] is None else c["vals"]
+
+
+def _sampled_idx(rng, lens, forms=None):
     """One index from the big product forms."""
     n = len(lens)
     L = max(lens)
-    form = rng.choice(["sl2_ss", "sl2_ss", "sl2_ls", "sl2_ls", "sl2_si", "sl2_sl", "pairs", "pairs", "pairs_scalar",
-                       "elem_list", "rowlist", "mask", "rowsl"])
+    form = rng.choice(forms or ["sl2_ss", "sl2_ss", "sl2_ls", "sl2_ls", "sl2_si", "sl2_sl", "pairs", "pairs",
+                                "pairs_scalar", "elem_list", "rowlist", "mask", "rowsl"])
     rlo, rhi = -n - 1, n
     clo, chi = -L - 1, L
     if rng.random() < 0.6:   # mostly valid
@@ -168,12 +200,119 @@ def _random_cases(rng, n):
     return cases
 
 
+# ---- round 3s streams ---------------------------------------------------------------------------
+LAYS2 = ["F", "F", "F", "T", "T", "T", "rowstr", "colstr", "neg", "negcol", "C"]
+LAYS1 = ["str", "neg"]
+NOMASK = ["sl2_ss", "sl2_ls", "sl2_si", "sl2_sl", "pairs", "pairs", "pairs_scalar", "elem_list", "rowlist", "rowsl"]
+RANGE = {"int8": 127, "uint8": 255, "int16": 32767, "uint16": 65535}
+
+
+def _any_idx(rng, lens, forms=None):
+    """any read form of the property, mostly valid."""
+    nr = len(lens)
+    f = rng.random()
+    if f < 0.10:
+        return {"k": "attrs"}
+    if f < 0.22:
+        return {"k": "row", "r": rng.randint(-nr, nr - 1)}
+    if f < 0.36:
+        r = rng.randint(-nr, nr - 1)
+        return {"k": "elem", "r": r, "c": rng.randint(-lens[r], lens[r] - (0 if rng.random() < 0.1 else 1))}
+    if f < 0.46:
+        return {"k": "rows", "sl": _rand_slice(rng, -nr - 1, nr + 1)}
+    return _sampled_idx(rng, lens, forms)
+
+
+def _layout_cases(rng, n):
+    """flat data / rows that are not C-contiguous: column-major, transposed views, strided and reversed views;
+    elements of width 2 and 3 (frames x features) and scalars; equal lengths (rectangular branch of the
+    constructor) as often as unequal ones; lengths as list and as ndarray; copy=True and copy=False."""
+    cases = []
+    for _ in range(n):
+        nr = rng.randint(1, 5)
+        if rng.random() < 0.55:
+            lens = [rng.randint(1, 6)] * max(nr, 2)
+        else:
+            lens = [rng.randint(1, 6) for _ in range(nr)]
+        w = rng.choice([2, 2, 3, 3, 0])
+        lay = rng.choice(LAYS2 if w else LAYS1)
+        ctor = rng.choice(["flat", "flat_np", "flat", "flat_np", "nested_np"])
+        cp = False if (ctor != "nested_np" and rng.random() < 0.4) else None
+        cases.append(_mk(lens, ctor, w, _any_idx(rng, lens), lay=lay, copy=cp))
+    return cases
+
+
+def _wrap_lens(rng, dt):
+    """row lengths that each fit dtype dt while the running total of the rows before the last passes its range."""
+    hi = RANGE[dt]
+    while True:
+        nr = rng.randint(3, 5)
+        if rng.random() < 0.25:
+            lens = [rng.randint(hi // 3, hi - hi // 8)] * nr
+        else:
+            lens = [rng.randint(hi // 8, hi - hi // 8) for _ in range(nr)]
+        if sum(lens[:-1]) > hi:
+            return lens
+
+
+def _narrow_cases(rng, n, big):
+    """lengths given as ndarrays of a narrow integer dtype; `big` = how many 16-bit cases (tens of thousands of
+    elements; evaluated by the oracle only, not in Coq)."""
+    cases = []
+    kinds = ["int8"] * (n // 2 - big) + ["uint8"] * (n // 2 - big) + ["int16"] * big + ["uint16"] * big
+    for dt in kinds:
+        lens = _wrap_lens(rng, dt)
+        forms = NOMASK if sum(lens) > 600 else None
+        w = 0 if sum(lens) > 600 else rng.choice([0, 0, 0, 2])
+        cases.append(_mk(lens, "flat_np", w, _any_idx(rng, lens, forms), ldt=dt,
+                         lay=("F" if w and rng.random() < 0.3 else None)))
+    for _ in range(max(4, n // 6)):      # the same dtypes (and the wide ones) without a wrap
+        dt = rng.choice(["int8", "uint8", "int16", "uint16", "int32", "uint32", "int64", "uint64"])
+        nr = rng.randint(1, 5)
+        lens = [rng.randint(1, 9)] * nr if rng.random() < 0.3 else [rng.randint(1, 9) for _ in range(nr)]
+        cases.append(_mk(lens, "flat_np", rng.choice([0, 0, 2]), _any_idx(rng, lens), ldt=dt))
+    return cases
+
+
+def _ixarg_cases(rng, n):
+    """index objects that are ndarrays (all signed widths, also two columns of one table, i.e. views) holding
+    negative entries, and the same objects used for a second read on an array with other row lengths."""
+    cases = []
+    for _ in range(n):
+        nr = rng.randint(1, 5)
+        lens = [rng.randint(1, 6) for _ in range(nr)]
+        lens2 = [rng.randint(1, 6) for _ in range(nr if rng.random() < 0.8 else rng.randint(1, 5))]
+        form = rng.choice(["pairs", "pairs", "pairs", "pairs_scalar", "elem_list", "elem_list", "rowlist", "sl2_ls",
+                           "sl2_sl"])
+        ix = None
+        for _try in range(20):
+            ix = _sampled_idx(rng, lens, [form])
+            negs = [x for key in ("rs", "cs") for x in ix.get(key, [])] + \
+                [x for sel in (ix.get("rsel", {}), ix.get("csel", {})) for x in sel.get("list", [])]
+            if any(x < 0 for x in negs):
+                break
+        ix["np"] = True
+        extra = {"ixdt": rng.choice([None, None, "int32", "int16", "int8"])}
+        if form == "pairs" and rng.random() < 0.4:
+            extra["ixview"] = True
+        if rng.random() < 0.7:
+            extra["again"] = {"lens": lens2}
+        cases.append(_mk(lens, rng.choice(CTORS), rng.choice([0, 0, 2]), ix, **extra))
+    return cases
+
+
+def _streams(rng, tier):
+    if tier == "quick":
+        return _layout_cases(rng, 500) + _narrow_cases(rng, 120, 3) + _ixarg_cases(rng, 300)
+    return _layout_cases(rng, 5000) + _narrow_cases(rng, 1000, 12) + _ixarg_cases(rng, 3000)
+
+
 def generate(rng, tier):
     small = _small_scope(rng)
     if tier == "quick":
         small = rng.sample(small, 3000)
-        return small + _random_cases(rng, 600)
-    return small + _random_cases(rng, 6000)
+        return small + _random_cases(rng, 600) + _streams(rng, tier)
+    return small + _random_cases(rng, 6000) + _streams(rng, tier)
 
 
 # ----------------------------------------------------------------------------- implementation
@@ -198,9 +337,44 @@ def _rows_of(x, w):
     return [[_elem(e, w) for e in row] for row in x]
 
 
-def _build(c):
+def _layout(base, lay):
+    """an array equal to `base` (first axis = elements of the flat data) with another memory layout."""
+    n = base.shape[0]
+    if lay in (None, "C"):
+        return base.copy()
+    if lay == "neg":
+        return base[::-1].copy()[::-1]
+    if base.ndim == 1:
+        if lay == "str":
+            big = np.full(2 * n, -7, dtype=base.dtype)
+            big[::2] = base
+            return big[::2]
+        raise KeyError(lay)
+    w = base.shape[1]
+    if lay == "F":
+        return np.asfortranarray(base)
+    if lay == "T":                       # np.array([xs, ys]).T : frames x features, stored feature-major
+        return np.array([base[:, i].tolist() for i in range(w)], dtype=base.dtype).T
+    if lay == "rowstr":
+        big = np.full((2 * n, w), -7, dtype=base.dtype)
+        big[::2] = base
+        return big[::2]
+    if lay == "colstr":
+        big = np.full((n, 2 * w), -7, dtype=base.dtype)
+        big[:, ::2] = base
+        return big[:, ::2]
+    if lay == "negcol":
+        return base[:, ::-1].copy()[:, ::-1]
+    raise KeyError(lay)
+
+
+def _build(c, lens=None):
     from enspara.ra.ra import RaggedArray
-    lens, vals, w = c["lens"], c["vals"], c["w"]
+    w = c["w"]
+    if lens is None:
+        lens, vals = c["lens"], _vals(c)
+    else:
+        vals = list(range(sum(lens)))
     if w == 0:
         flat = np.array(vals, dtype=int)
     else:
@@ -210,14 +384,23 @@ def _build(c):
         rows.append(flat[s:s + l])
         s += l
     ctor = c["ctor"]
+    lay = c.get("lay")
+    kw = {"copy": False} if c.get("copy") is False else {}
     if ctor == "nested":
         a = RaggedArray([r.tolist() for r in rows])
     elif ctor == "nested_np":
-        a = RaggedArray([r.copy() for r in rows])
+        if lay is None:
+            a = RaggedArray([r.copy() for r in rows])
+        else:
+            src, s, views = _layout(flat, lay), 0, []
+            for l in lens:
+                views.append(src[s:s + l])
+                s += l
+            a = RaggedArray(views)
     elif ctor == "flat":
-        a = RaggedArray(flat.copy(), lengths=list(lens))
+        a = RaggedArray(_layout(flat, lay), lengths=list(lens), **kw)
     else:
-        a = RaggedArray(flat.copy(), lengths=np.array(lens))
+        a = RaggedArray(_layout(flat, lay), lengths=np.array(lens, dtype=c.get("ldt")), **kw)
     return a, rows, flat
 
 
@@ -229,34 +412,76 @@ def _py_index(c):
     """the Python index expression object for the case."""
     ix = c["idx"]
     k = ix["k"]
+    dt = c.get("ixdt")
+
+    def arr(xs):
+        return np.array(xs, dtype=dt)
+
+    def seq(xs):
+        return arr(xs) if ix.get("np") else list(xs)
     if k == "row":
         return ix["r"]
     if k == "rows":
         return _sl(ix["sl"])
     if k == "rowlist":
-        return np.array(ix["rs"]) if ix["np"] else list(ix["rs"])
+        return seq(ix["rs"])
     if k == "elem":
         return (ix["r"], ix["c"])
     if k == "pairs":
-        if ix["np"]:
-            return (np.array(ix["rs"]), np.array(ix["cs"]))
-        return (list(ix["rs"]), list(ix["cs"]))
+        if ix["np"] and c.get("ixview"):
+            table = np.array([ix["rs"], ix["cs"]], dtype=dt).T.copy()      # one row per selected element
+            return (table[:, 0], table[:, 1])
+        return (seq(ix["rs"]), seq(ix["cs"]))
     if k == "pairs_scalar":
-        return (list(ix["rs"]), ix["c"])
+        return (seq(ix["rs"]), ix["c"])
     if k == "elem_list":
-        return (ix["r"], list(ix["cs"]))
+        return (ix["r"], seq(ix["cs"]))
     if k == "rowsl":
         return (ix["r"], _sl(ix["sl"]))
     if k == "sl2":
         rs = ix["rsel"]
         cs = ix["csel"]
-        r = _sl(rs["sl"]) if "sl" in rs else list(rs["list"])
-        cc = _sl(cs["sl"]) if "sl" in cs else (cs["int"] if "int" in cs else list(cs["list"]))
+        r = _sl(rs["sl"]) if "sl" in rs else seq(rs["list"])
+        cc = _sl(cs["sl"]) if "sl" in cs else (cs["int"] if "int" in cs else seq(cs["list"]))
         return (r, cc)
     raise KeyError(k)
 
 
+def _snap(ix):
+    """a value that changes iff an index object (or a part of it) is altered."""
+    if isinstance(ix, tuple):
+        return [_snap(x) for x in ix]
+    if isinstance(ix, np.ndarray):
+        return ["nd", str(ix.dtype), list(ix.shape), ix.tolist()]
+    if isinstance(ix, list):
+        return ["list", list(ix)]
+    if isinstance(ix, slice):
+        return ["slice", ix.start, ix.stop, ix.step]
+    return ["int", int(ix)]
+
+
+def _kinds(arrs):
+    """dtype kinds of the arrays that hold at least one element"""
+    out = set()
+    for x in arrs:
+        x = x if isinstance(x, np.ndarray) else np.asarray(x)
+        if x.size > 0:
+            out.add(x.dtype.kind)
+    return sorted(out)
+
+
 def _canon(res, w):
+    out = _canon_values(res, w)
+    from enspara.ra.ra import RaggedArray
+    if isinstance(res, RaggedArray):
+        # every row as stored, as iterated, as read by a[i], and the flat data
+        out["dtk"] = _kinds(list(res._array) + [r for r in res] + [res[i] for i in range(len(res.lengths))] + [res._data])
+    else:
+        out["dtk"] = _kinds([res])
+    return out
+
+
+def _canon_values(res, w):
     from enspara.ra.ra import RaggedArray
     if isinstance(res, RaggedArray):
         rows = _rows_of(list(res._array), w)
@@ -271,40 +496,68 @@ def _canon(res, w):
     return {"flat": [_elem(e, w) for e in a.reshape(-1, w)]}
 
 
-def run_impl(c):
+def _read(a, c, ixobj):
     from enspara.ra import ra as ramod
     from enspara.ra.ra import RaggedArray
     w = c["w"]
-    try:
-        a, rows, flat = _build(c)
-    except Exception as ex:
-        return {"err": "ctor:" + type(ex).__name__}
     ix = c["idx"]
     try:
-        if ix["k"] == "attrs":
-            shp = a.shape
-            return {"lengths": [int(x) for x in a.lengths], "starts": [int(x) for x in a.starts],
-                    "shape": [None if x is None else int(x) for x in shp], "size": int(a.size), "len": len(a),
-                    "iter": _rows_of([r for r in a], w),
-                    "flatten": [int(x) for x in a.flatten()],
-                    "dtype_ok": bool(a.dtype == flat.dtype)}
         if ix["k"] == "mask":
             m = RaggedArray([list(r) for r in ix["m"]])
             wr, wc = ramod.where(m)
             out = _canon(a[m], w)
             out["where"] = [[int(x) for x in wr], [int(x) for x in wc]]
             return out
-        return _canon(a[_py_index(c)], w)
+        return _canon(a[ixobj], w)
     except _Bad as ex:
         return {"err": "Bad", "msg": str(ex)[:300]}
     except Exception as ex:
         return {"err": type(ex).__name__, "msg": str(ex)[:200]}
 
 
+def run_impl(c):
+    w = c["w"]
+    try:
+        a, rows, flat = _build(c)
+    except Exception as ex:
+        return {"err": "ctor:" + type(ex).__name__, "msg": str(ex)[:200]}
+    ix = c["idx"]
+    if ix["k"] == "attrs":
+        try:
+            shp = a.shape
+            return {"lengths": [int(x) for x in a.lengths], "starts": [int(x) for x in a.starts],
+                    "shape": [None if x is None else int(x) for x in shp], "size": int(a.size), "len": len(a),
+                    "iter": _rows_of([r for r in a], w),
+                    "flatten": [int(x) for x in a.flatten()],
+                    "dtype_ok": bool(a.dtype == flat.dtype),
+                    "dtk": _kinds([r for r in a] + [a[i] for i in range(len(a.lengths))] + [a.flatten()])}
+        except _Bad as ex:
+            return {"err": "Bad", "msg": str(ex)[:300]}
+        except Exception as ex:
+            return {"err": type(ex).__name__, "msg": str(ex)[:200]}
+    ixobj = None if ix["k"] == "mask" else _py_index(c)
+    before = _snap(ixobj) if ixobj is not None else None
+    out = _read(a, c, ixobj)
+    if "again" in c:
+        # the same index objects, a second array
+        try:
+            a2, _, _ = _build(c, c["again"]["lens"])
+        except Exception as ex:
+            out["again"] = {"err": "ctor:" + type(ex).__name__}
+        else:
+            out["again"] = _read(a2, c, ixobj)
+    if ixobj is not None and _snap(ixobj) != before:
+        out["argmod"] = "index %r is %r after the read" % (before, _snap(ixobj))
+    return out
+
+
 # ----------------------------------------------------------------------------- oracle: list of rows
-def _reference(c):
+def _reference(c, lens=None):
     """The same read on a plain list of per-row arrays (ids instead of elements)."""
-    lens, vals = c["lens"], c["vals"]
+    if lens is None:
+        lens, vals = c["lens"], _vals(c)
+    else:
+        vals = list(range(sum(lens)))
     rows, s = [], 0
     for l in lens:
         rows.append(np.array(vals[s:s + l], dtype=int))
@@ -367,13 +620,41 @@ def _strip(r):
     return {k: v for k, v in r.items() if k != "msg"}
 
 
+def _short(x):
+    t = str(x)
+    return t if len(t) < 700 else t[:340] + " ... " + t[-340:]
+
+
+def _opts(c):
+    return " ".join("%s=%s" % (k, c[k]) for k in ("lay", "copy", "ldt", "ixdt", "ixview") if k in c)
+
+
 def oracle(c, r):
+    out = []
     exp = _reference(c)
-    got = _strip(r)
+    got = {k: v for k, v in _strip(r).items() if k not in ("again", "argmod", "dtk")}
+    for rr, which in ((r, ""), (r.get("again", {}), " (second read)")):
+        if rr.get("dtk") not in (None, [], ["i"]):
+            out.append(("row-dtype", "lens %s ctor %s w %d %s idx %s%s: the arrays returned (rows as stored / iterated / "
+                        "read by a[i], flat data) have dtype kinds %s; the rows of the list-of-rows model are integer "
+                        "arrays like the data put in" % (c["lens"] if len(c["lens"]) < 40 else "...", c["ctor"], c["w"],
+                                                         _opts(c), c["idx"], which, rr["dtk"])))
+    lens = c["lens"] if len(c["lens"]) < 40 else _short(c["lens"])
     if got != exp:
-        return [(_key(c), "lens %s ctor %s w %d idx %s: implementation %s, list of rows %s" % (
-            c["lens"], c["ctor"], c["w"], c["idx"], r, exp))]
-    return []
+        out.append((_key(c), "lens %s ctor %s w %d %s idx %s: implementation %s, list of rows %s" % (
+            lens, c["ctor"], c["w"], _opts(c), c["idx"], _short(got), _short(exp))))
+    if "again" in c:
+        exp2 = _reference(c, c["again"]["lens"])
+        got2 = {k: v for k, v in _strip(r.get("again", {})).items() if k != "dtk"}
+        if got2 != exp2:
+            out.append((_key(c), "index objects of a read on an array with lengths %s used again: lens %s ctor %s w %d "
+                        "%s idx %s: implementation %s, list of rows %s" % (
+                            lens, c["again"]["lens"], c["ctor"], c["w"], _opts(c), c["idx"], _short(got2),
+                            _short(exp2))))
+    if "argmod" in r:
+        out.append(("index-argument-modified", "lens %s ctor %s w %d %s idx %s: %s (reading a list of rows leaves "
+                    "the index as it was)" % (lens, c["ctor"], c["w"], _opts(c), c["idx"], r["argmod"])))
+    return out
 
 
 # ----------------------------------------------------------------------------- Coq side
@@ -418,8 +699,10 @@ def _cidx(ix):
     raise KeyError(k)
 
 
-def _cconc(c):
-    return "(mkRA %s %s)" % (_czl(c["vals"]), clist(c["lens"], cn, "nat"))
+def _cconc(c, lens=None):
+    if lens is not None:
+        return "(mkRA %s %s)" % (_czl(list(range(sum(lens)))), clist(lens, cn, "nat"))
+    return "(mkRA %s %s)" % (_czl(_vals(c)), clist(c["lens"], cn, "nat"))
 
 
 def _cres(r):
@@ -430,18 +713,11 @@ def _cres(r):
     return None
 
 
-def coq_check(c, r):
-    conc = _cconc(c)
-    if c["idx"]["k"] == "attrs":
-        if "err" in r:
-            return "false"
-        shape2 = r["shape"][1]
-        return ("check_attrs %s %s %s %s %s %s %s %s && zlist_eqb (gen_starts %s) %s" % (
-            conc, clist(r["lengths"], cn, "nat"), clist(r["starts"], cn, "nat"), cn(r["len"]),
-            copt(shape2, cn, "nat"), cn(r["size"] // max(1, c["w"])), clist(r["iter"], _czl, "(list Z)"),
-            _czl(r["flatten"][::max(1, c["w"])]), _czl(r["lengths"]), _czl(r["starts"])))
-    # every read is evaluated on the hand-written model (get_c) and on the read assembled from the
-    # definitions regenerated from the current source (get_g)
+COQ_MAX = 600      # arrays with more elements are checked by the oracle only (literal size)
+
+
+def _cread(c, conc, r):
+    """model = implementation for one read (hand-written model get_c and regenerated get_g)."""
     if "err" in r:
         if r["err"] == "IndexError":
             return "result_eqb (get_c %s %s) Err && result_eqb (get_g %s %s) Err" % (
@@ -453,6 +729,30 @@ def coq_check(c, r):
         m = clist(c["idx"]["m"], lambda m: clist(m, cb, "bool"), "(list bool)")
         wr, wc = clist(r["where"][0], cn, "nat"), clist(r["where"][1], cn, "nat")
         t = "(%s) && where_eqb (where_c %s) %s %s && where_g_eqb (where_g %s) %s %s" % (t, m, wr, wc, m, wr, wc)
+    return t
+
+
+def coq_check(c, r):
+    if sum(c["lens"]) > COQ_MAX:
+        return None
+    conc = _cconc(c)
+    if c["idx"]["k"] == "attrs":
+        if "err" in r:
+            return "false"
+        shape2 = r["shape"][1]
+        if any(x < 0 for x in r["starts"] + r["lengths"]):
+            return "false"
+        return ("check_attrs %s %s %s %s %s %s %s %s && zlist_eqb (gen_starts %s) %s" % (
+            conc, clist(r["lengths"], cn, "nat"), clist(r["starts"], cn, "nat"), cn(r["len"]),
+            copt(shape2, cn, "nat"), cn(r["size"] // max(1, c["w"])), clist(r["iter"], _czl, "(list Z)"),
+            _czl(r["flatten"][::max(1, c["w"])]), _czl(r["lengths"]), _czl(r["starts"])))
+    # every read is evaluated on the hand-written model (get_c) and on the read assembled from the
+    # definitions regenerated from the current source (get_g)
+    t = _cread(c, conc, r)
+    if "again" in c:
+        t = "(%s) && (%s)" % (t, _cread(c, _cconc(c, c["again"]["lens"]), r.get("again", {"err": "missing"})))
+    if "argmod" in r:
+        return "false"      # the model's read has no effect on the index
     return t
 
 
@@ -468,12 +768,37 @@ def nontrivial(c, r):
     if "err" in r:
         return True
     vals = r.get("flat") if "flat" in r else [e for row in r["ra"] for e in row]
-    return 0 < len(vals) < len(c["vals"]) or (len(vals) > 0 and vals != c["vals"])
+    return 0 < len(vals) < len(_vals(c)) or (len(vals) > 0 and vals != _vals(c))
 
 
 def tags(c, r):
     t = [_key(c), "ctor-" + c["ctor"], "w%d" % c["w"]]
     t.append("rect" if all(l == c["lens"][0] for l in c["lens"]) else "ragged")
+    if c.get("lay"):
+        t.append("lay-" + c["lay"])
+    if c.get("copy") is False:
+        t.append("ctor-copy-false")
+    if c.get("ldt"):
+        t.append("ldt-" + c["ldt"])
+        if c["ldt"] in RANGE and sum(c["lens"][:-1]) > RANGE[c["ldt"]]:
+            t.append("lens-total-exceeds-dtype")
+            t.append("lens-total-exceeds-" + c["ldt"])
+    if c["idx"].get("np"):
+        ixv = c["idx"]
+        ents = [x for key in ("rs", "cs") for x in ixv.get(key, [])] + \
+            [x for sel in (ixv.get("rsel", {}), ixv.get("csel", {})) for x in sel.get("list", [])]
+        if any(x < 0 for x in ents):
+            t.append("idx-ndarray-negative")
+        if c.get("ixview"):
+            t.append("idx-ndarray-view")
+        if c.get("ixdt"):
+            t.append("idx-" + c["ixdt"])
+    if "again" in c:
+        t.append("idx-reused-on-second-array")
+    if sum(c["lens"]) > COQ_MAX:
+        t.append("oracle-only-large")
+    if r.get("dtk"):
+        t.append("dtype-kind-compared")
     if "err" in r:
         t.append("err-" + r["err"])
         if c["idx"]["k"] in ("elem", "pairs", "pairs_scalar", "elem_list"):
@@ -503,12 +828,17 @@ def tags(c, r):
 ESSENTIAL_TAGS = ["row", "rows", "rowlist", "elem", "pairs", "pairs_scalar", "elem_list", "rowsl", "mask", "attrs",
                   "sl2-slice-slice", "sl2-list-slice", "sl2-slice-int", "sl2-slice-list", "neg-step", "neg-start",
                   "neg-stop", "elem-oob-error", "result-has-empty-row", "rect", "ragged",
-                  "ctor-nested", "ctor-nested_np", "ctor-flat", "ctor-flat_np"]
+                  "ctor-nested", "ctor-nested_np", "ctor-flat", "ctor-flat_np",
+                  "lay-F", "lay-T", "lay-rowstr", "lay-colstr", "lay-neg", "lay-negcol", "lay-str", "ctor-copy-false",
+                  "ldt-int8", "ldt-uint8", "ldt-int16", "ldt-uint16", "lens-total-exceeds-dtype",
+                  "lens-total-exceeds-int8", "lens-total-exceeds-uint8", "lens-total-exceeds-int16",
+                  "lens-total-exceeds-uint16", "idx-ndarray-negative", "idx-ndarray-view",
+                  "idx-reused-on-second-array", "dtype-kind-compared"]
 
 
 def search(rng, tier):
     out = []
-    for c in _small_scope(rng)[::7] + _random_cases(rng, 3000):
+    for c in _streams(rng, "quick") + _small_scope(rng)[::7] + _random_cases(rng, 3000):
         r = run_impl(c)
         for key, msg in oracle(c, r):
             out.append((key, msg, c, r))
